@@ -321,5 +321,20 @@ func runC03(c *ctx, r *Report) error {
 	if !c.quick {
 		per = 300
 	}
-	return pwStandard(c, r, "ast", per, false)
+	if err := pwStandard(c, r, "ast", per, false); err != nil {
+		return err
+	}
+	// AL.Props.C03Rule: in the model of rule_expression.go every value string of the AST is run through the placeholder scan
+	// (a malformed placeholder yields a diagnostic at that string). Where the real rule's `expression` diagnostics for a source
+	// differ from the model's, it departs from that: the source is a failing input.
+	perE := 10
+	if !c.quick {
+		perE = 300
+	}
+	return exStandard(c, r, func(cs Case) (string, string) {
+		if cs.Impl != cs.Model {
+			return "expression-diagnostics-differ-from-proved-model", "the `expression` diagnostics of the real rule (" + truncate(cs.Impl, 300) + ") differ from the model of rule_expression.go (" + truncate(cs.Model, 300) + ")"
+		}
+		return "", ""
+	}, perE, true, map[bool]int{true: 2500, false: 0}[c.quick])
 }
